@@ -128,6 +128,11 @@ class C05Spec(c01.C01Spec):
             # leaders change often (leader churn), followers lag behind trickling links
             apply_churn(rng, cfg)
             s['w_hold'] = rng.choice([0.05, 0.1])
+        if cfg['n_voters'] >= 3 and rng.random() < 0.3:
+            # the quiet period leaves a minority of the voters cut off (each alone): a bare or comfortable majority remains
+            nv = cfg['n_voters']
+            k = rng.choice([1, (nv - 1) // 2])
+            cfg['quiet_cut_off'] = sorted(rng.sample(range(nv), k))
         return cfg
 
     def make_tap(self, world, oracle):
@@ -148,8 +153,12 @@ class C05Spec(c01.C01Spec):
         def round_():
             quiet_round(w, apply, period)
 
+        # "a majority of members can exchange messages": in some runs a minority of the voters stays cut off (each alone) during
+        # the quiet period; what is demanded then is demanded of the connected majority and the read-only nodes
+        out = set(cfg.get('quiet_cut_off') or [])
+
         def converged():
-            leaders = [h for h in w.hosts if h.node is not None and not h.readonly and h.node._isLeader()]
+            leaders = [h for h in w.hosts if h.node is not None and not h.readonly and h.idx not in out and h.node._isLeader()]
             if len(leaders) != 1:
                 return False
             top = max(orc.G) if orc.G else 1
@@ -158,7 +167,7 @@ class C05Spec(c01.C01Spec):
                 return False
             for h in w.hosts:
                 n = h.node
-                if n is None:
+                if n is None or h.idx in out:
                     continue
                 if n.raftLastApplied != L.raftLastApplied or n.raftLastApplied < top:
                     return False
@@ -172,6 +181,12 @@ class C05Spec(c01.C01Spec):
 
         apply([0.0, 'heal'])
         sch.held = []
+        if out:
+            g = [0] * len(w.hosts)
+            for k, i in enumerate(sorted(out)):
+                g[i] = k + 1
+            apply([0.0, 'part', g])
+            w.probe('quiet_period_with_minority_cut_off')
         ok = False
         # "one leader" has to be stable: it must hold for two election timeouts in a row (right after a
         # reconnect a follower's election timer may still be about to fire, which is legitimate)
@@ -196,7 +211,7 @@ class C05Spec(c01.C01Spec):
         # progress: one command on every node, all must be acknowledged with SUCCESS
         tags = []
         for h in w.hosts:
-            if h.node is None:
+            if h.node is None or h.idx in out:
                 continue
             tag = sch.next_tag
             sch.next_tag += 1
@@ -217,7 +232,7 @@ class C05Spec(c01.C01Spec):
         # identical state everywhere
         sts = set()
         for h in w.hosts:
-            if h.node is not None:
+            if h.node is not None and h.idx not in out:
                 sts.add(repr((h.node.raftLastApplied, orc.app.model.observe(h.node))))
         if len(sts) != 1:
             orc.flag('replicas_differ', 'after the quiet period replicas hold %d different (applied index, state) pairs' % len(sts), dict(wedge=wedge(w)))
